@@ -36,7 +36,7 @@ def run(tier, wd):
     rep.cov["outcome_kinds"] = kinds
     rep.cov["distinct_nontrivial"] = nontriv
     rep.cov["exhaustive"] = True
-    rep.cov["rule"] = ("4 command trees (depth <= 4 levels, aliases, a level without spec string, a level with a spec-level --, a command without Action) x every "
+    rep.cov["rule"] = ("5 command trees (depth <= 4 levels, aliases, a level without spec string, a level with a spec-level --, a command without Action) x every "
                        "argument vector over %d tokens (sub command names and aliases, positionals, declared/undeclared options, --) up to length %d: CmdTree.tla "
                        "walks Cmd.parse level by level (split at the first direct sub command name, validate the level's own tokens with RefSemantics, descend) "
                        "and says which command runs with which per-level derivations or which level rejects; non-trivial = a run through >= 2 levels or a "
